@@ -93,7 +93,8 @@ class IntegratorTemplate(abc.ABC):
                 self.solver_dict["epsilon_last_last"], self.solver_dict["epsilon_last"] = epsilon_last, epsilon_current
             corr = (1 + D.ar_numpy.arctan((safety_factor * corr - 1)))
             timestep = corr * timestep
-            redo_step = bool(corr < 0.9**2)
+            # an undefined (NaN) error estimate cannot certify the step, whatever the safety factor
+            redo_step = bool(corr < 0.9**2) or bool(D.ar_numpy.isnan(epsilon_current))
             if redo_step:
                 for key in ("system_scaling", "epsilon_last", "epsilon_last_last"):
                     self.solver_dict.pop(key, None)
